@@ -74,12 +74,13 @@ func c13Gen(runSeed uint64, tier string) *gen.Scenario {
 			r.Kind = "ReadUsersetTuples"
 			r.Obj, r.Rel = gen.Pick(g, uObjs), gen.Pick(g, uRels)
 			// restrictions encoded in Filter: comma separated "group#member", "user:*", duplicates allowed
-			r.Filter = gen.Pick(g, []string{"", "group#member", "user:*", "group#member,user:*", "group#member,group#member", "doc#viewer", "user:*,user:*"})
+			r.Filter = gen.Pick(g, []string{"", "group#member", "user:*", "group#member,user:*", "group#member,group#member", "doc#viewer", "user:*,user:*",
+				"group#member,doc#viewer", "group#viewer,doc#member", "doc#member,group#viewer,user:*", "group#member,group#viewer"})
 		case 4:
 			r.Kind = "ReadStartingWithUser"
 			r.Type = gen.Pick(g, []string{"doc", "group"})
 			r.Rel = gen.Pick(g, uRels)
-			r.User = gen.Pick(g, []string{"user:a", "user:a,user:*", "group:1#member", "user:b,group:1#member,user:b", "doc:2", "user:*"})
+			r.User = gen.Pick(g, []string{"user:a", "user:a,user:*", "group:1#member", "user:b,group:1#member,user:b", "doc:2", "user:*", "doc:2#member,group:1#viewer", "group:1#member,doc:2#viewer"})
 			// object id set encoded in Filter: "-" = nil, "" = present but empty
 			r.Filter = gen.Pick(g, []string{"-", "-", "", "1", "1,2", "2,9"})
 			r.HC = g.Chance(0.5) // sorted ascending
